@@ -735,9 +735,17 @@ class Scen:
         self.fs_dirty = True
         self.tok(self.obs_tok(b.keys()))
         real = "ok" if err is None else "err:" + err
-        self.tok(f"switch:{name}", lambda o, real=real: self.cmp("switch", o, real))
+        if s.get("dirty"):   # which of several refusals comes first depends on iteration orders: compare ok / refused
+            self.tok(f"switch:{name}", lambda o, real=real: self.cmp("switch", o.split(":")[0], real.split(":")[0]))
+        else:
+            self.tok(f"switch:{name}", lambda o, real=real: self.cmp("switch", o, real))
         self.cmp_index_files()
         self.ctx.count(self.stream + ".switch", (self.label, len(self.script)), True, real)
+        if s.get("dirty"):
+            # switch from a state with local changes: correspondence only (the property speaks of clean checkouts)
+            if err is None:
+                self.head = name
+            return
         if err is not None:
             cls = None
             if err == "IsADirectoryError" and any(q in b for p in a for q in ancestors(p)):
@@ -930,6 +938,8 @@ def mutate_tree(rng, profile, ents: list) -> list:
             del cur[p]
         elif op == "file->dir":
             del cur[p]
+            if k == "l":                      # a relative target would now resolve differently (possibly to itself)
+                spec = {"hex": hx(b"/nonexistent-c18/moved")}
             cur[p + b"/" + gen_name(rng, "plain")] = (k, spec)
             if rng.random() < 0.4:
                 q = p + b"/" + gen_name(rng, "plain") + b"/" + gen_name(rng, "plain")
@@ -1344,6 +1354,32 @@ def _stream_racy(ctx, batch):
         sc.close()
 
 
+def _stream_dirty_switch(ctx, batch, stream="dirtyswitch"):
+    """Correspondence only: porcelain.checkout(branch) from a state with local edits (the pre-checks of
+    update_working_tree and _check_uncommitted_changes): model vs real outcome, files and index."""
+    rng = ctx.rng
+    for i in range(ctx.budget(30)):
+        profile = "plain"
+        a = gen_tree(rng, profile, n=rng.choice([2, 4, 7]))
+        b = mutate_tree(rng, profile, a)
+        sc = Scen(ctx, stream, "dirty")
+        try:
+            sc.exec({"op": "tree", "name": "a", "entries": a})
+            sc.exec({"op": "tree", "name": "b", "entries": b})
+            sc.exec({"op": "fresh", "tree": "a"})
+            if sc.failed:
+                continue
+            for _ in range(rng.choice([1, 1, 2, 3])):
+                e = _pick_edit(rng, sc, profile)
+                if e["op"] != "status":
+                    sc.exec(e)
+            sc.exec({"op": "switch", "tree": "b", "dirty": True})
+            sc.exec({"op": "status"})
+            ctx.count(stream, (str(a), str(b), i), True)
+        finally:
+            batch.add(sc)
+
+
 def _stream_linkdir(ctx, batch, stream="linkdir"):
     """Direct oracle only (outside the model's domain): a tracked directory replaced by a symbolic link to another
     directory; the three-way comparison and git say the tracked paths are gone."""
@@ -1419,6 +1455,7 @@ def run(ctx: core.Ctx):
     _stream_roundtrip(ctx, batch)
     _stream_switch(ctx, batch)
     _stream_edits(ctx, batch)
+    _stream_dirty_switch(ctx, batch)
     _stream_linkdir(ctx, batch)
     _stream_racy(ctx, batch)
     batch.flush()
